@@ -832,9 +832,14 @@ func (r *Run) partitionAndAgeing() {
 	loops := Loops(poa)
 	nonEmpty := func(b *ssa.BasicBlock) bool {
 		for _, g := range Guards(b) {
-			gt := otm.Of(g.Cond)
-			if gt.Op == "bin" && gt.Name == ">" && g.True && gt.Args[0].String() == "len(recv.Species[*].Organisms)" && gt.Args[1].String() == "0" {
+			// any spelling of "the species has organisms": len > 0, len != 0, !(len == 0), 0 < len, len >= 1 ...
+			if condImpliesEmpty(otm, Guard{g.Cond, !g.True, g.At}, "recv.Species[*].Organisms") {
 				return true
+			}
+			if bo, ok := g.Cond.(*ssa.BinOp); ok && bo.Op == token.NEQ && g.True {
+				if k, isK := bo.Y.(*ssa.Const); isK && k.Value != nil && k.Int64() == 0 && otm.Of(bo.X).String() == "len(recv.Species[*].Organisms)" {
+					return true
+				}
 			}
 		}
 		return false
